@@ -9,3 +9,6 @@ cargo build --release --offline
 # the real fst binary (guard off) for the free-running part of C19
 cd /repo
 CARGO_TARGET_DIR="$HERE/harness/target/fstbin" cargo build --release --offline -p fst-bin
+# the guard-off parity binary of C15 (the library as shipped)
+cd "$HERE/plain"
+cargo build --release --offline
